@@ -64,6 +64,33 @@ def check_case(rep, case, closed=False):
                                   tags=(res["name"], f"K={k}", f"n={n}"))
 
 
+def replicated(rep, case, counter):
+    """Each sample is replaced by r identical copies (affinity block-replicated).  Every conditional distribution spreads
+    evenly over the copies, so every GEMINI keeps its value: the exact spec value of the small case is the expected value
+    of an N = r*n problem with hundreds of samples, handed over in shuffled order."""
+    n, k, q = case["n"], case["k"], case["q"]
+    r = {1: 300, 2: 130, 3: 171}.get(n, 70)
+    P = np.repeat(np.array(case["a"], dtype=float) / q, r, axis=0)
+    perm = np.random.RandomState(counter).permutation(len(P))
+    for res in case["base"]:
+        expected = gem.bag_eval(res["v"])
+        A0 = gem.affinity(res["name"], res["aff"], case["x"])
+        A = None if A0 is None else np.repeat(np.repeat(A0, r, axis=0), r, axis=1)[np.ix_(perm, perm)]
+        label, g = gem.code_instances(res["name"])[0]
+        rep.case((n, k, q, case["a"], case["x"], res["name"], res["aff"], "replicated", r))
+        try:
+            got = float(g(P[perm].copy(), A))
+            tol = 1e-6 if res["name"].startswith("mmd") else 1e-8
+            bad = not (abs(got - expected) <= tol * max(1.0, abs(expected)))
+            msg = f"code={got!r} spec={expected!r}"
+        except Exception as e:
+            bad, msg = True, f"raised {type(e).__name__}: {e}"
+        if bad:
+            rep.violation(f"n={n} K={k} P={case['a']}/{q} x={case['x']} with every sample replicated {r} times (N={len(P)}, shuffled): "
+                          f"{res['name']}[{res['aff']}]: {msg}", {"case": {kk: case[kk] for kk in ("n", "k", "q", "a", "x")}, "r": r,
+                                                                  "name": res["name"], "aff": res["aff"]}, tags=(res["name"], "replicated", f"N={len(P)}"))
+
+
 def run(tier):
     rep = Report("C01", tier)
     rep.rule = ("TLC enumerates every count matrix a (rows sum to QD, entries >= 1) for each listed shape (N,K,QD) x 3 "
@@ -75,8 +102,10 @@ def run(tier):
     for shape, frac in shapes:
         r, nch = gem.enumerate_cases(shape, grad=False, frac=frac)
         rep.add_tlc("Gemini", r, note=f"shape={shape} chunks={nch}")
-        for case in r.prints:
+        for ci, case in enumerate(r.prints):
             check_case(rep, case)
+            if ci % (40 if tier == "quick" else 15) == 7:
+                replicated(rep, case, ci)
     # the boundary of the simplex (exact zeros, one-hot rows, empty clusters): values still follow the definitions
     for shape, frac in ([((2, 2, 4), 1.0), ((2, 3, 3), 1.0)] if tier == "quick" else [((2, 2, 4), 1.0), ((2, 3, 3), 1.0), ((3, 2, 2), 1.0), ((3, 3, 3), 0.25)]):
         r, nch = gem.enumerate_cases(shape, grad=False, closed=True, frac=frac)
